@@ -515,7 +515,7 @@ func genStructuredURI(t *rapid.T) string {
 	sb.WriteString(pick("query", "", "", "?q=1&r=2", "?a=[1]", "?%", "?é=%C3%A9"))
 	sb.WriteString(pick("fragment", "", "", "#f", "#%", "#a#b", "#[x]"))
 	s := sb.String()
-	toks := []string{"%", "[", "]", ":", "://", " ", "é", "%4", "\x80", "@", "//"}
+	toks := []string{"%", "[", "]", ":", "://", " ", "é", "%4", "\x80", "@", "//", "\ufffd", "\x00"}
 	for n := rapid.IntRange(0, 2).Draw(t, "ninsert"); n > 0 && len(s) > 0; n-- {
 		at := rapid.IntRange(0, len(s)).Draw(t, "insertat")
 		s = s[:at] + toks[rapid.IntRange(0, len(toks)-1).Draw(t, "insert")] + s[at:]
@@ -527,7 +527,7 @@ func genURI(t *rapid.T) harness.Case {
 	if rapid.Bool().Draw(t, "structured") {
 		return harness.Case{In: []byte(genStructuredURI(t))}
 	}
-	toks := []string{"a", "%", "%4", "%41", "%4G", "%gg", "%C3%A9", " ", "é", "/", "[", "]", "\x80", "\xff", "?", "#", "&", "\"", "<", "\\", "%25", "%%", "猫", "\x00", "~", "^", "{", "`", "|"}
+	toks := []string{"a", "%", "%4", "%41", "%4G", "%gg", "%C3%A9", " ", "é", "/", "[", "]", "\x80", "\xff", "\ufffd", "\xef\xbf", "\U0010ffff", "?", "#", "&", "\"", "<", "\\", "%25", "%%", "猫", "\x00", "~", "^", "{", "`", "|"}
 	n := rapid.IntRange(0, 12).Draw(t, "n")
 	var sb strings.Builder
 	for i := 0; i < n; i++ {
